@@ -43,7 +43,7 @@ Theorem C05_grid_rows :
   forall n nb it (offs D : Z -> Qc) b x y,
     valid_it it -> 0 < n -> 0 < nb -> 0 <= b < nb -> 0 <= x < n -> 0 <= y < n ->
     apply_y n nb it (updateSM n it offs) D (didx n b x y) =
-    krow n it (offs (b * n + x)) (fun ys => D (didx n b x ys)) y.
+    krow n it (offs (b * n + x)) (rowD n D b x) y.
 Proof. exact apply_y_is_krow. Qed.
 Print Assumptions C05_grid_rows.
 
@@ -57,7 +57,7 @@ Theorem C05_wake_kick_force_law_eff :
     let i := b * n + x in
     let ow := wake_update nb n wp old i in
     let orf := rf_offsets n t xc i in
-    let r := fun y => D (didx n b x y) in
+    let r := rowD n D b x in
     suppQ r a bb ->
     row_fits n it ow a bb ->
     row_fits n it orf (a - shift_hi n it ow) (bb - shift_lo n it ow) ->
@@ -75,7 +75,7 @@ Theorem C05_wake_kick_force_law :
     valid_it it -> 2 <= it -> 0 < n < 2 ^ 30 -> 0 < nb -> 0 <= x < n ->
     let ow := wake_update nb n wp old x in
     let orf := rf_offsets n t xc x in
-    let r := fun y => D (didx n 0 x y) in
+    let r := rowD n D 0 x in
     suppQ r a bb ->
     row_fits n it ow a bb ->
     row_fits n it orf (a - shift_hi n it ow) (bb - shift_lo n it ow) ->
@@ -106,7 +106,7 @@ Qed.
 Example C05_force_law_instance :
   let ow := wake_update 1 12 ex_wp (fun _ => 0%Qc) 4 in
   let orf := rf_offsets 12 ex_t ex_xc 4 in
-  let r := fun y => ex_D (didx 12 0 4 y) in
+  let r := rowD 12 ex_D 0 4 in
   let r' := row_kicks 12 4 (kick_off ow orf) (ykick_prefix step_order) r in
   M0 12 r' = Qcz 8 /\ (M1 12 r' - M1 12 r)%Qc = (Q2Qc (-7 # 16) * Qcz 8)%Qc.
 Proof. cbv zeta. split; apply Qc_is_canon; vm_compute; reflexivity. Qed.
